@@ -53,16 +53,26 @@ Proof.
 Qed.
 
 (* what wsvg writes on a path element *)
-Lemma path_attrs_d d a : lookup "d" (path_attrs d a) = Some d.
+Lemma path_attrs_d d a : d <> "" -> lookup "d" (path_attrs d a) = Some d.
 Proof.
-  unfold path_attrs. rewrite lookup_update_miss by apply lookup_remove_same.
+  intros Hd. unfold path_attrs. apply String.eqb_neq in Hd. rewrite Hd.
+  rewrite lookup_update_miss by apply lookup_remove_same.
   reflexivity.
+Qed.
+(* get('d', ''): also right for the empty path, whose element has no d attribute *)
+Lemma path_attrs_dget d a : dget (path_attrs d a) = d.
+Proof.
+  unfold dget, path_attrs. destruct (String.eqb d "") eqn:E.
+  - apply String.eqb_eq in E. subst d. rewrite lookup_remove_same. reflexivity.
+  - rewrite lookup_update_miss by apply lookup_remove_same. reflexivity.
 Qed.
 Lemma path_attrs_keeps d a k v :
   k <> "d" -> lookup k a = Some v -> lookup k (path_attrs d a) = Some v.
 Proof.
-  intros Hk Hv. unfold path_attrs. apply lookup_update_other.
-  rewrite lookup_remove_other by exact Hk. exact Hv.
+  intros Hk Hv. unfold path_attrs. destruct (String.eqb d "").
+  - rewrite lookup_remove_other by exact Hk. exact Hv.
+  - apply lookup_update_other.
+    rewrite lookup_remove_other by exact Hk. exact Hv.
 Qed.
 
 (* ------------------------------------------------------------------ *)
@@ -87,11 +97,21 @@ Qed.
 Lemma written_length ds attrs : length attrs = length ds -> length (written ds attrs) = length ds.
 Proof. intros H. unfold written. rewrite map_length, combine_length, H. lia. Qed.
 
-Lemma written_d ds : forall attrs, length attrs = length ds ->
+Definition noempty (ds : list string) : Prop := Forall (fun d => d <> "") ds.
+
+Lemma written_d ds : forall attrs, length attrs = length ds -> noempty ds ->
     map (lookup "d") (written ds attrs) = map Some ds.
 Proof.
+  induction ds as [|d dr IH]; intros [|a ar] H Hn; cbn [length] in H; try reflexivity; try discriminate.
+  inversion Hn; subst.
+  rewrite written_cons. cbn [map]. rewrite path_attrs_d by assumption. f_equal. apply IH; [lia|assumption].
+Qed.
+
+Lemma written_dget ds : forall attrs, length attrs = length ds ->
+    map dget (written ds attrs) = ds.
+Proof.
   induction ds as [|d dr IH]; intros [|a ar] H; cbn [length] in H; try reflexivity; try discriminate.
-  rewrite written_cons. cbn [map]. rewrite path_attrs_d. f_equal. apply IH. lia.
+  rewrite written_cons. cbn [map]. rewrite path_attrs_dget. f_equal. apply IH. lia.
 Qed.
 
 Lemma written_keeps ds : forall attrs i a w k v,
@@ -133,11 +153,11 @@ Proof.
 Qed.
 
 Theorem wsvg_svg2paths ds attrs sa size :
-  length attrs = length ds ->
+  length attrs = length ds -> noempty ds ->
   svg2paths_read (wsvg_file ds attrs sa size) = Some (ds, written ds attrs).
 Proof.
-  intros H. unfold svg2paths_read. rewrite wsvg_elements, attrs_paths.
-  cbn zeta. rewrite written_d by exact H. rewrite all_some_map_Some. reflexivity.
+  intros H Hn. unfold svg2paths_read. rewrite wsvg_elements, attrs_paths.
+  cbn zeta. rewrite written_d by assumption. rewrite all_some_map_Some. reflexivity.
 Qed.
 
 Theorem wsvg_svg2paths_svg_attributes ds attrs sa size k v :
@@ -177,13 +197,7 @@ Proof.
   rewrite zip_paths_written, parse_paths. cbn [doc_visible filter is_svg_path is_tag x_ns x_local].
   cbn [String.eqb]. cbn.
   rewrite filter_xpaths, go_xpaths, app_nil_r, xattrs_paths.
-  f_equal.
-  assert (E : forall l : list dict, map (lookup "d") l = map Some ds ->
-              map (fun a => match lookup "d" a with Some d => d | None => "" end) l = ds).
-  { clear. intros l. revert ds. induction l as [|a r IH]; intros [|d dr] E; cbn in *;
-      try reflexivity; try discriminate.
-    inversion E as [[E1 E2]]. rewrite E1. f_equal. apply IH. exact E2. }
-  apply E, written_d, H.
+  f_equal. exact (written_dget ds attrs H).
 Qed.
 
 (* ---- reader 3: SaxDocument ---- *)
@@ -200,10 +214,11 @@ Proof. unfold nostyle, style_entries. intros ->. reflexivity. Qed.
 
 Lemma path_attrs_nostyle d a : nostyle a -> nostyle (path_attrs d a).
 Proof.
-  unfold nostyle, path_attrs. intros H.
-  rewrite lookup_update_miss.
-  - reflexivity.
+  unfold nostyle, path_attrs. intros H. destruct (String.eqb d "").
   - rewrite lookup_remove_other by discriminate. exact H.
+  - rewrite lookup_update_miss.
+    + reflexivity.
+    + rewrite lookup_remove_other by discriminate. exact H.
 Qed.
 
 Lemma written_nostyle ds : forall attrs, Forall nostyle attrs -> Forall nostyle (written ds attrs).
@@ -218,7 +233,7 @@ Qed.
 Lemma sax_paths c inherited (l : list dict) :
   Forall nostyle l ->
   flat_map (sax_values c inherited) (map (fun a => XE SVGNS "path" a []) l)
-  = map (fun w => Some (update inherited w)) l.
+  = map (fun w => Some (sax_path_values (update inherited w))) l.
 Proof.
   induction 1 as [|a r Ha Hr IH]; [reflexivity|].
   cbn [map flat_map sax_values]. rewrite (style_entries_nostyle c a Ha), update_nil_r.
@@ -226,14 +241,15 @@ Proof.
 Qed.
 
 Theorem wsvg_sax c ds attrs sa size :
-  length attrs = length ds ->
+  length attrs = length ds -> noempty ds ->
   nostyle sa -> nostyle size -> Forall nostyle attrs ->
   exists root_values,
-    sax_read c (wsvg_file ds attrs sa size) = Some (ds, map (update root_values) (written ds attrs))
+    sax_read c (wsvg_file ds attrs sa size)
+    = Some (ds, map (fun w => sax_path_values (update root_values w)) (written ds attrs))
     /\ sax_root_values c (wsvg_file ds attrs sa size) = root_values
     /\ forall k v, lookup k sa = Some v -> lookup k root_values = Some v.
 Proof.
-  intros H Hsa Hsz Hat.
+  intros H Hne Hsa Hsz Hat.
   assert (HR : nostyle (update (update svgwrite_defaults size) sa)).
   { unfold nostyle in *. rewrite lookup_update_miss by exact Hsa.
     rewrite lookup_update_miss by exact Hsz. reflexivity. }
@@ -248,14 +264,16 @@ Proof.
     match goal with |- context [if ?b then _ else _] => replace b with false by reflexivity end.
     cbn [app].
     rewrite (sax_paths c _ _ (written_nostyle ds attrs Hat)).
-    rewrite <- (map_map (update _) Some), all_some_map_Some. f_equal. f_equal.
+    rewrite <- (map_map (fun w => sax_path_values (update _ w)) Some), all_some_map_Some. f_equal. f_equal.
     assert (E : forall rv (l : list dict), map (lookup "d") l = map Some ds ->
                 map (fun a => match lookup "d" a with Some d => d | None => "" end)
-                    (map (update rv) l) = ds).
-    { clear. intros rv l. revert ds. induction l as [|a r IH]; intros [|d dr] E; cbn in *;
+                    (map (fun w => sax_path_values (update rv w)) l) = ds).
+    { clear. intros rv l. revert ds. induction l as [|a r IH]; intros [|d dr] E; cbn [map] in *;
         try reflexivity; try discriminate.
-      inversion E as [[E1 E2]]. rewrite (lookup_update_other _ _ _ _ E1). f_equal. apply IH. exact E2. }
-    apply E, written_d, H.
+      inversion E as [[E1 E2]]. unfold sax_path_values at 1.
+      rewrite (lookup_update_other "d" (dget (update rv a)) _ [("d", dget (update rv a))] eq_refl).
+      unfold dget. rewrite (lookup_update_other _ _ _ _ E1). f_equal. apply IH. exact E2. }
+    apply E, written_d; assumption.
   - unfold sax_root_values, wsvg_file. cbn [et_parse].
     rewrite (style_entries_nostyle c _ HR), update_nil_r. reflexivity.
   - intros k v Hk. apply lookup_update_other. apply lookup_update_other. exact Hk.
@@ -281,6 +299,13 @@ Proof.
     destruct (lookup k a) as [v|] eqn:Ea.
     + apply lookup_update_other, Ea.
     + apply lookup_update_miss, Ea.
+Qed.
+
+(* the d entry SaxDocument adds does not touch the other values *)
+Lemma sax_path_values_keeps values k : k <> "d" -> lookup k (sax_path_values values) = lookup k values.
+Proof.
+  intros Hk. unfold sax_path_values. apply lookup_update_miss.
+  cbn [lookup]. apply String.eqb_neq in Hk. rewrite Hk. reflexivity.
 Qed.
 
 (* ---- the style attribute ---- *)
